@@ -324,6 +324,24 @@ Proof.
     + right. eauto.
 Qed.
 
+Lemma where_fold_kc gs acc :
+  consts_kc gs -> rmap_kc acc ->
+  rmap_kc (fold_left (fun a g' => or_ranges a (group_ranges g')) gs acc).
+Proof.
+  revert acc; induction gs as [|g gs IH]; simpl; intros acc K Kacc; auto.
+  apply IH.
+  - intros g' Hg'; apply K; simpl; auto.
+  - apply or_ranges_kc; auto. apply group_ranges_kc. intros c Hc; apply (K g); simpl; auto.
+Qed.
+Lemma where_ranges_kc gs : consts_kc gs -> rmap_kc (where_ranges gs).
+Proof.
+  intros K. unfold where_ranges. destruct gs as [|g gs].
+  - intros k rg [].
+  - apply where_fold_kc.
+    + intros g' Hg'; apply K; simpl; auto.
+    + apply group_ranges_kc. intros c Hc; apply (K g); simpl; auto.
+Qed.
+
 (* ---------- the key bounds contain the row key ---------- *)
 Lemma key_bounds_lo_ready cols rm hr : fst (key_bounds cols rm true hr) = [].
 Proof.
